@@ -277,7 +277,27 @@ type frameTrack struct {
 	closed bool
 	atClose string // sink summary when the first Close returned
 	flushed bool // a Flush cut a block short (legacy: blocks then hold less than 8 MiB)
+	usedRF  bool // ReadFrom delivered data (it ends a source that is a multiple of the block size with an empty block)
 	opts   map[string]int
+}
+
+// freshFrame: the bytes a NEW Writer with these options emits for one Write of data followed by Close
+func freshFrame(opts map[string]int, data []byte) ([]byte, error) {
+	var out bytes.Buffer
+	zw := lz4.NewWriter(&out)
+	o := []lz4.Option{lz4.LegacyOption(opts["leg"] != 0), lz4.BlockSizeOption(lz4.BlockSize(uint32(opts["bs"]))), lz4.BlockChecksumOption(opts["bc"] != 0),
+		lz4.ChecksumOption(opts["cc"] != 0), lz4.SizeOption(uint64(opts["sz"])), lz4.CompressionLevelOption(lz4.CompressionLevel(uint32(opts["lvl"]))),
+		lz4.ConcurrencyOption(opts["conc"])}
+	if err := zw.Apply(o...); err != nil {
+		return nil, err
+	}
+	if len(data) > 0 {
+		if _, err := zw.Write(data); err != nil {
+			return nil, err
+		}
+	}
+	err := zw.Close()
+	return out.Bytes(), err
 }
 
 // implW: W <failAt> ops…
@@ -292,6 +312,7 @@ func implW(f []string, o *oracleSink) string {
 	tr := &frameTrack{clean: sink.failAt < 0, opts: cur}
 	var res, sinks, notes []string
 	hung := false
+	applyFailed := false
 	finishFrame := func() {
 		sinks = append(sinks, sink.summary())
 		if tr.closed && tr.atClose != "" && tr.atClose != sink.summary() {
@@ -299,6 +320,13 @@ func implW(f []string, o *oracleSink) string {
 		}
 		if tr.clean && tr.closed {
 			all := sink.bytes()
+			// C14 / C17: whatever the object did before (earlier frames, Resets, option changes), the frame is the
+			// one a new Writer with the same options emits for the same data (real code against real code)
+			if shadowDepth == 0 && !tr.flushed && !tr.usedRF && !applyFailed {
+				if want, err := freshFrame(tr.opts, tr.data); err == nil && !bytes.Equal(want, all) {
+					notes = append(notes, "DIFFERS-FROM-FRESH-WRITER")
+				}
+			}
 			ref := saveBlob("wsink", all)
 			if tr.opts["leg"] != 0 {
 				if tr.flushed {
@@ -363,6 +391,7 @@ func implW(f []string, o *oracleSink) string {
 					}
 				} else {
 					tr.clean = false
+					applyFailed = true // the options before the failing one stay applied: the table is no longer exact
 				}
 				return errName(err)
 			case "w":
@@ -436,6 +465,7 @@ func implW(f []string, o *oracleSink) string {
 				fa, wr := srcFail(p[3])
 				src := &scriptSrc{data: d, chunk: atoi(p[2]), failAt: fa, wrapEOF: wr, eofWithData: p[4] == "1"}
 				n, err := zw.ReadFrom(src)
+				tr.usedRF = true
 				if err != nil || int(n) != len(d) {
 					tr.clean = false
 				}
